@@ -1875,6 +1875,15 @@ func (t *Topic) anotherUserSub(sess *Session, asUid, target types.Uid, asChan bo
 		return nil, errors.New("topic access denied: cannot subscribe reader to channel")
 	}
 
+	// Only group topics accept new members: 'me' and 'fnd' belong to one user,
+	// a P2P topic has exactly two participants.
+	if t.cat != types.TopicCatGrp {
+		if _, isParticipant := t.perUser[target]; t.cat != types.TopicCatP2P || !isParticipant {
+			sess.queueOut(ErrPermissionDeniedReply(pkt, now))
+			return nil, errors.New("topic access denied: only group topics accept invitations")
+		}
+	}
+
 	// Check if topic is suspended.
 	if t.isReadOnly() {
 		sess.queueOut(ErrPermissionDeniedReply(pkt, now))
